@@ -253,26 +253,25 @@ def doRtx (fx : Fixes) (c : Cfg) (kind : String) (b : Bin) : String :=
       | some l =>
         let dt := g.deltaTime b.tof
         let fmtO := fun (o : Option Bin) => match o with | some nb => fmtBin nb | none => "miss"
-        if !k.viaCylinder then
-          -- sinogram coordinates are copied (`s = R sin(asin(s/R))`)
-          let l' : LorS := if k.reversed then { l with swapped := !l.swapped } else l
-          fmtO (g.getBinCore fx.wrap l' dt)
+        -- β = asin(s/R)/π (binary64 value, taken exactly; the conversions are affine in it)
+        let absS := absQ l.s
+        let bq := floatToRat (Float.asin (F absS / c.cf.reff) / piF)
+        let beta := if l.s ≥ 0 then bq else -bq
+        let exact := fmtO (g.getBinVia fx.dir fx.wrap k l beta dt)
+        if !k.viaCylinder || (fx.wrap && fx.dir) then exact
         else
-          -- through cylinder coordinates: β = asin(s/R)/π (binary64 value, taken exactly), ψ = φ ± β, and back (`get_sino_coords`)
-          let absS := absQ l.s
-          let bq := floatToRat (Float.asin (F absS / c.cf.reff) / piF)
-          let na : LorNA := ⟨l.z1, l.z2, l.phi, if l.s ≥ 0 then bq else -bq, l.swapped⟩
-          let cy := na.cylOfKind k
+          -- before the fixes C12-6 / C12-7 the answer depends on the rounding error of the angles recomputed from the end points
+          -- (which branch of `get_sino_coords` is taken for a LOR through the axis; an angle just below the azimuthal offset):
+          -- also list the answers for angles perturbed by less than a millionth of a view
+          let cy := (l.withBeta beta).cylOfKind k
           let eps : Rat := 1 / (1000000 * (c.V : Rat))
           let run := fun (cy : LorCyl) =>
             let n' := cy.toNA fx.dir
             let s' := if absQ (n'.beta - bq) ≤ 4 * eps then absS else if absQ (n'.beta + bq) ≤ 4 * eps then -absS else 1000000000
             fmtO (g.getBinCore fx.wrap ⟨n'.z1, n'.z2, n'.phi, s', n'.swapped⟩ dt)
-          -- before the fixes C12-6 / C12-7 the answer depends on the rounding error of the angles recomputed from the end points
-          -- (which branch of `get_sino_coords` is taken for a LOR through the axis; an angle just below the azimuthal offset)
-          let cands := if fx.wrap && fx.dir then [run cy] else
-            [run cy, run { cy with psi1 := cy.psi1 - 2 * eps }, run { cy with psi1 := cy.psi1 + 2 * eps }]
-          " | ".intercalate (dedup cands)
+          let ds : List Rat := [0, -2 * eps, 2 * eps]
+          " | ".intercalate (dedup (exact :: ds.flatMap fun d1 => ds.map fun d2 =>
+            run { cy with psi1 := to02 (cy.psi1 + d1), psi2 := to02 (cy.psi2 + d2) }))
 
 /-- `fbin d1 r1 d2 r2 …`: find_bin_given_cartesian_coordinates_of_detection of the coordinates of a detector pair -/
 def doFbin (c : Cfg) (d1 r1 d2 r2 : Int) : String := fmtRt (c.cyl.findBin d1 r1 d2 r2)
